@@ -3,6 +3,7 @@ import U3.Lemmas.RespIO
 import U3.Lemmas.RespWitness
 import U3.Lemmas.RespDrain
 import U3.Lemmas.RespDrainWitness
+import U3.Lemmas.RespBroken
 /-!
 # C13 — a cut-off or corrupt response is never presented as complete
 
@@ -21,13 +22,19 @@ connection survives `drain_conn()` only if `http.client` read the body to its en
 
 The `read1()` defect (a short Content-Length body ended silently) is repaired in the code:
 `C13_eof_before_length_raises` is the general statement, `C13_read1_none_raises` the former negation
-witness turned positive.  `C13_truncated_raises` at full strength ("for every call sequence") is
-still **false** of the code as it is for truncated zstd streams; the `…_silent` theorems are
+witness turned positive.
+
+**`C13_truncated_raises`** ("for every call sequence", DESIGN Appendix E) is proved in full for the
+framing level — a body short of its Content-Length, a chunked body the lenient reference reader finds
+incomplete or unparseable —, for any decoder: no call of the read family ever signals an end of body;
+`C13_truncated_generators_raise` is the same for `stream` / `read_chunked` / iteration.  Extended to
+"the compressed stream is incomplete (zstd) / a later gzip member is corrupt" the statement is
+still **false** of the code as it is; the `…_silent` theorems are
 kernel-evaluated counter-examples (read(n) on a truncated zstd stream; MultiDecoder.flush; a corrupt
 gzip member after the first, swallowed as "trailing garbage").
 
-  -- full statement (refuted by C13_zstd_incomplete_read_n_silent):
-  -- theorem C13_truncated_raises (ht : ¬ lenientComplete w) : ∀ calls, endSignalled (runCalls d w calls) → False
+  -- full statement incl. the decode level (refuted by C13_zstd_incomplete_read_n_silent):
+  -- theorem C13_truncated_raises' (ht : ¬ lenientComplete w ∨ zstdIncomplete w) : ∀ calls, endSignalled (runCalls d w calls) → False
 -/
 namespace U3.Props
 open U3 U3.Resp U3.Resp.Witness
@@ -346,6 +353,93 @@ example :
     let t := drainConn hSrc cdDec cfgNone (respOf wireShortCL 0 (some (lit "5")) false (some 5))
     out s1 = some (lit "he") ∧ err s2 = none ∧ s2.2.released = true ∧ s2.2.connClosed = false ∧
     out s3 = some [] ∧ err t = none ∧ t.2.released = true ∧ t.2.connClosed = true := by
+  decide +kernel
+
+/-! ### the headline: no read pattern ends normally on a cut-off body
+
+`LShort h lr` — a non-chunked body that ends before its Content-Length (`l` bytes owed, fewer there
+before the FIN, `length_remaining = l`); `CBroken h lr` — a chunked body the lenient reference reader
+finds incomplete or unparseable (`Broken`), from any position.  `EndSignal c out` — the call `c`
+returning `out` tells the caller that the body is over: `read()` returning at all, `read(n)` /
+`read1(n)` / `read1()` (`n ≠ 0`) returning b"". -/
+
+/-- **`C13_truncated_raises`** (DESIGN Appendix E, proved in full for the framing level): for EVERY
+sequence of `read()`, `read(0)`, `read(n)` (= `readinto(n)`), `read1()`, `read1(n)` calls on a response
+whose body is short of its Content-Length or whose chunked framing is incomplete / has an unparseable
+size line — every cut position, every segmentation, ANY content decoder, decoding on or off —:
+either a call raises (never the model's `fuel` outcome: the loops terminate), or the sequence runs
+through and **no call has signalled an end of body** — every `read(n)` / `read1(n)` returned a
+non-empty piece —, the body is still broken, and the next `read()` raises ProtocolError.
+`enforce_content_length` is on (the default).  The exception is `_raw_read`'s ProtocolError
+(`IncompleteRead` / `InvalidChunkLength`) unless the decoder raises first (DecodeError …). -/
+theorem C13_truncated_raises {δ : Type} (D : Dec δ) (cfg : Cfg δ) (henf : cfg.enforce = true)
+    (dco : Option Bool) (r : R H δ)
+    (hbroken : LShort r.fp r.lengthRemaining ∨ CBroken r.fp r.lengthRemaining)
+    (hfuel : r.fp.avail < cfg.fuel) (calls : List RCall) :
+    (∃ e r', callSeq hSrc D cfg dco calls r = (.error e, r') ∧ e ≠ .fuel) ∨
+    (∃ outs r', callSeq hSrc D cfg dco calls r = (.ok outs, r') ∧ outs.length = calls.length ∧
+      (∀ i (hi : i < calls.length) (ho : i < outs.length), ¬ EndSignal calls[i] outs[i]) ∧
+      (LShort r'.fp r'.lengthRemaining ∨ CBroken r'.fp r'.lengthRemaining) ∧
+      ∃ r'', read hSrc D cfg r' none dco = (.error .protocolError, r'')) := by
+  rcases hbroken with hb | hb
+  · have hB := hSrc_rawBroken_short (δ := δ) cfg henf
+    rcases callSeq_broken hSrc D cfg hB dco calls r hb hfuel with h1 | ⟨outs, r', e1, e2, e3, e4, _⟩
+    · left; exact h1
+    · right
+      exact ⟨outs, r', e1, e2, e3, Or.inl e4, read_none_broken hSrc D cfg hB dco false r' e4⟩
+  · have hB := hSrc_rawBroken_chunked (δ := δ) cfg
+    rcases callSeq_broken hSrc D cfg hB dco calls r hb hfuel with h1 | ⟨outs, r', e1, e2, e3, e4, _⟩
+    · left; exact h1
+    · right
+      exact ⟨outs, r', e1, e2, e3, Or.inr e4, read_none_broken hSrc D cfg hB dco false r' e4⟩
+
+/-- non-vacuity: `Content-Length: 5` with "ab"; a chunk of 5 cut after 2 bytes (segmentation 3) -/
+example : LShort (respOf wireShortCL 0 (some (lit "5")) false (some 5)).fp
+    (respOf wireShortCL 0 (some (lit "5")) false (some 5)).lengthRemaining := lShort_shortCL
+example : CBroken (respChunked wireChunkedCut 3).fp (respChunked wireChunkedCut 3).lengthRemaining :=
+  cBroken_chunkedCut
+example : cfgNone.enforce = true ∧ (respOf wireShortCL 0 (some (lit "5")) false (some 5)).fp.avail < cfgNone.fuel := by
+  decide +kernel
+
+/-- … and what the model computes on them: `read(1)`, `read1()` return pieces, then `read(7)` raises -/
+example :
+    let x := callSeq hSrc cdDec cfgNone (some true) [.read (some 1), .read1 none, .read (some 7)]
+      (respOf wireShortCL 0 (some (lit "5")) false (some 5))
+    let y := callSeq hSrc cdDec cfgChunkedNone (some true) [.read (some 1), .read1 (some 9), .read1 none]
+      (respChunked wireChunkedCut 3)
+    err x = some .protocolError ∧ x.2.connClosed = true ∧
+    err y = some .protocolError ∧ y.2.connClosed = true := by
+  decide +kernel
+
+/-- **the generators on a cut-off body end in an exception, never in StopIteration**:
+(a) non-chunked body short of its Content-Length: `stream(amt)` (`amt ≠ 0`) and iteration (loops of
+`read(amt)`);  (b) broken chunked body, urllib3's own chunk parser: `read_chunked(amt)`, `stream(amt)`
+and iteration — `_update_chunk_length` / `_handle_chunk` run into the unparseable line or the EOF.
+Any decoder, decoding on or off, any amount, any segmentation.  (The outcome may be the model's
+`fuel` only where an arbitrary decoder inflates without bound; it is an error outcome too.) -/
+theorem C13_truncated_generators_raise {δ : Type} (D : Dec δ) (cfg : Cfg δ) (r : R H δ) :
+    (cfg.enforce = true → cfg.chunked = false → LShort r.fp r.lengthRemaining → r.fp.avail < cfg.fuel →
+      ∀ amt dco, amt ≠ some 0 →
+        (∃ e, (stream hSrc D cfg r amt dco).1.2 = some e) ∧ (∃ e, (iter hSrc D cfg r).1.2 = some e)) ∧
+    (cfg.chunked = true → cfg.head = false →
+      ∀ f, r.fp.fp = some f → BrokenU r.chunkLeft f.content →
+      ∀ amt, (∀ dc, ∃ e, (readChunked hSrc D cfg r amt dc).1.2 = some e) ∧
+        (∀ dco, ∃ e, (stream hSrc D cfg r amt dco).1.2 = some e) ∧
+        (∃ e, (iter hSrc D cfg r).1.2 = some e)) := by
+  refine ⟨fun henf hnc hb hf amt dco hamt => ?_, fun hch hhd f hf hb amt => ?_⟩
+  · exact stream_broken hSrc D cfg (hSrc_rawBroken_short cfg henf) hnc amt hamt dco r hb hf
+  · obtain ⟨h1, h2⟩ := readChunked_broken cfg D hch hhd amt r f hf hb
+    exact ⟨h1, h2, iter_broken_chunked cfg D hch hhd r f hf hb⟩
+
+example : BrokenU (respChunked wireChunkedCut 3).chunkLeft (lit "5\r\nab") :=
+  .line _ 4 (by decide) (.short 4 _ (by decide))
+
+example :
+    (stream hSrc cdDec cfgNone (respOf wireShortCL 0 (some (lit "5")) false (some 5)) (some 1) (some true)).1 =
+      ([lit "a", lit "b"], some .protocolError) ∧
+    (readChunked hSrc cdDec cfgChunkedNone (respChunked wireChunkedCut 3) (some 1) true).1 =
+      ([lit "a", lit "b"], some .protocolError) ∧
+    (iter hSrc cdDec cfgChunkedNone (respChunked wireChunkedBadLine 3)).1.2 = some .protocolError := by
   decide +kernel
 
 /-! ### negation witnesses (known findings that are not repaired) -/
